@@ -35,12 +35,16 @@ type config struct {
 	gas   uint64
 	value int64
 	input []byte
+	to    *common.Address // nil: the program account aSelf; otherwise the entry goes straight to this account (layer P)
 }
 
 func (c config) String() string {
 	s := fmt.Sprintf("%s gas=%d value=%d", entryName[c.entry], c.gas, c.value)
 	if len(c.input) > 0 {
 		s += " input=" + hx(c.input)
+	}
+	if c.to != nil {
+		s += " to=" + nameOf(*c.to)
 	}
 	return s
 }
@@ -91,12 +95,14 @@ type result struct {
 	stateError string
 
 	// instrumented run only
-	steps    uint64
-	exceeded bool
-	frames   int
-	maxDepth int
-	reverts  int
-	viols    [][2]string
+	notReverted bool   // the outermost frame returned an error after taking a snapshot that it never reverted
+	faultOp     string // the operation that was executing when the run panicked
+	steps       uint64
+	exceeded    bool
+	frames      int
+	maxDepth    int
+	reverts     int
+	viols       [][2]string
 }
 
 // watchdog: the run in progress, for the wall-clock safety net (never an oracle for normal cases)
@@ -162,6 +168,10 @@ func run(w *world, ref *state.StateDB, preRoot common.Hash, code []byte, c confi
 	}
 	value := big.NewInt(c.value)
 	from := evm.AccountRef(aOrigin)
+	to := aSelf
+	if c.to != nil {
+		to = *c.to
+	}
 	var err error
 	curVM.Store(vm)
 	atomic.StoreInt32(&curHit, 0)
@@ -169,15 +179,15 @@ func run(w *world, ref *state.StateDB, preRoot common.Hash, code []byte, c confi
 	r.panicked, r.panicVal = catch(func() {
 		switch c.entry {
 		case entCall:
-			r.ret, r.left, r.bcg, err = vm.Call(from, aSelf, common.EmptyAddress, c.input, c.gas, value)
+			r.ret, r.left, r.bcg, err = vm.Call(from, to, common.EmptyAddress, c.input, c.gas, value)
 		case entTokenCall:
-			r.ret, r.left, r.bcg, err = vm.Call(from, aSelf, aTkn, c.input, c.gas, value)
+			r.ret, r.left, r.bcg, err = vm.Call(from, to, aTkn, c.input, c.gas, value)
 		case entUTXOCall:
-			r.ret, r.left, r.bcg, err = vm.UTXOCall(from, aSelf, common.EmptyAddress, c.input, c.gas, value)
+			r.ret, r.left, r.bcg, err = vm.UTXOCall(from, to, common.EmptyAddress, c.input, c.gas, value)
 		case entCreate:
 			r.ret, r.created, r.left, err = vm.Create(from, code, c.gas, value)
 		case entStatic:
-			r.ret, r.left, r.bcg, err = vm.StaticCall(from, aSelf, c.input, c.gas)
+			r.ret, r.left, r.bcg, err = vm.StaticCall(from, to, c.input, c.gas)
 		}
 	})
 	atomic.StoreInt64(&curStart, 0)
@@ -186,6 +196,12 @@ func run(w *world, ref *state.StateDB, preRoot common.Hash, code []byte, c confi
 	}
 	if p != nil {
 		r.steps, r.exceeded, r.frames, r.maxDepth, r.reverts = p.steps, p.exceeded, p.nframes, p.maxDepth, p.nreverts
+		if r.panicked && p.curSet {
+			r.faultOp = p.curOp.String()
+			if strings.HasPrefix(r.faultOp, "Missing") {
+				r.faultOp = fmt.Sprintf("0x%02x", byte(p.curOp))
+			}
+		}
 		if p.exceeded {
 			r.canceled = true
 		}
@@ -198,6 +214,10 @@ func run(w *world, ref *state.StateDB, preRoot common.Hash, code []byte, c confi
 	}
 	if p != nil {
 		p.finish()
+		if err != nil && p.nsnap > 0 && !p.firstReverted {
+			r.notReverted = true
+			p.violation("failed-frame-not-reverted:entry", fmt.Sprintf("the outermost frame returned %q after taking a snapshot, but never reverted to it", err))
+		}
 		r.viols = p.viols
 	}
 	r.ret = append([]byte{}, r.ret...)
@@ -285,7 +305,11 @@ func opClass(code []byte) string {
 		case o >= evm.DUP1 && o <= evm.DUP16, o >= evm.SWAP1 && o <= evm.SWAP16, o == evm.POP, o == evm.JUMPDEST, o == evm.GAS, o == evm.ADDRESS, o == evm.STOP:
 			continue
 		}
-		seen[o.String()] = true
+		n := o.String()
+		if strings.HasPrefix(n, "Missing") {
+			n = fmt.Sprintf("0x%02x", byte(o))
+		}
+		seen[n] = true
 	}
 	var l []string
 	for s := range seen {
@@ -312,7 +336,11 @@ func evaluate(w *world, ref *state.StateDB, preRoot common.Hash, code []byte, c 
 	}
 	a := run(w, ref, preRoot, code, c, true)
 	if a.panicked {
-		add("panic:"+panicClass(a.panicVal)+":"+opClass(code), "interpreter panicked: %s", a.panicVal)
+		at := a.faultOp
+		if at == "" {
+			at = opClass(code)
+		}
+		add("panic:"+panicClass(a.panicVal)+":"+at, "interpreter panicked while executing %s: %s", at, a.panicVal)
 		return fs, "panic", a, 1
 	}
 	if a.exceeded {
@@ -365,9 +393,9 @@ func evaluate(w *world, ref *state.StateDB, preRoot common.Hash, code []byte, c 
 			add("nondeterministic:state:"+strings.Join(cl, "+"), "two runs ended in different states with EQUAL roots: %s", det)
 		}
 	}
-	if a.stateError != "" || b.stateError != "" {
-		add("statedb-error", "StateDB memoised a database error: %q / %q", a.stateError, b.stateError)
-	}
+	// A memoised StateDB database error (EXTCODESIZE of a code-less account looks the empty code hash up in the
+	// database) has no consumer in the repository (StateDB.Error() is never called) and no effect on results; it
+	// is counted as an observation, not judged.
 
 	for _, r := range []*result{a, b} {
 		// metering: never more gas than supplied. The application adds RefundFee() (success) or RefundAllFee()
@@ -384,19 +412,16 @@ func evaluate(w *world, ref *state.StateDB, preRoot common.Hash, code []byte, c 
 			}
 		}
 		// atomicity of the outermost frame
-		if r.err != "" {
+		if r.err != "" && !a.notReverted {
 			if cl := r.post.classes(); len(cl) > 0 {
-				add("failed-frame-leaves-state:"+strings.Join(cl, "+"), "the outermost frame failed with %q but the world changed: %s", r.err, r.post)
+				for _, c := range residueClasses(cl) {
+					add("failed-frame-leaves-state:"+c, "the outermost frame failed with %q but the world changed: %s", r.err, r.post)
+				}
 			} else if r.root != r.preRoot {
 				add("failed-frame-leaves-state:root-only", "the outermost frame failed with %q, the explicit dump is unchanged but the state root moved %x -> %x", r.err, r.preRoot[:4], r.root[:4])
 			}
-			// "value sent into a failed call stays with the caller" is part of the equality above (the caller's
-			// and every recipient's balance); name it separately when it is the caller that lost it
-			for _, l := range r.post.lines {
-				if strings.HasPrefix(l, "origin/balance:") || strings.HasPrefix(l, "origin/token-balance:") {
-					add("value-of-failed-call-not-with-caller", "the call failed with %q but the caller's balance changed: %s", r.err, l)
-				}
-			}
+			// "value sent into a failed call stays with the caller" is part of this equality: the delta covers the
+			// caller's and every recipient's balance and token balances (field class "balance" / "token-balance")
 		}
 	}
 
